@@ -47,7 +47,7 @@ def judge_cg(case, ctx, rng):
     cgm = mod("prtpy.partitioning.complete_greedy")
     k, vals = case["k"], case["values"]
     name, kp = case["objective"]
-    objective = A.objective(name, kp)
+    objective = A.objective(name, kp, case=case)
     kw = cg_config(case["cg_mask"])
     contents = case.get("manager", "contents") == "contents"
     mk = (A.prtpy.BinnerKeepingContents if contents else A.prtpy.BinnerKeepingSums)
